@@ -8,7 +8,7 @@ import sys, os
 sys.path.insert(0, os.getcwd())
 from orchestrator import core
 bad = 0
-for v in ("std-debug", "std-release", "std-release-ovf", "std-debug-wrap", "std-debug-norawfd", "xen-debug", "xen-release", "miri", "miri-be"):
+for v in ("std-debug", "std-release", "std-release-ovf", "std-debug-wrap", "std-debug-norawfd", "std-release-native", "xen-debug", "xen-release", "miri", "miri-be", "miri-ppc64le"):
     try:
         core.build(v)
     except core.Inconclusive as e:
